@@ -24,3 +24,7 @@ Definition bound_holds (b : bound) (v : Z) : Prop :=
 Definition add_bound (c : Q) (negated : bool) : bound * bound :=
   if negated then let p := bounds_int (- c) false in (UB (bp_upper p), LB (bp_lower p))
   else let p := bounds_int c true in (LB (bp_lower p), UB (bp_upper p)).
+
+(* meaning of the atom  c <= s  with s = v (negated = false) or s = -v (negated = true) *)
+Definition atom_holds (c : Q) (negated : bool) (v : Z) : Prop :=
+  (c <= inject_Z (if negated then - v else v))%Q.
